@@ -67,11 +67,17 @@ def _history(kind, body, ending):
                     pass
             else:
                 w.flush()
-        for op in {"close": ["close"], "with-exit": ["exit"], "close close": ["close", "close"], "with-exit close": ["exit", "close"], "flush close": ["flush", "close"]}[ending]:
+        for op in {"close": ["close"], "with-exit": ["exit"], "close close": ["close", "close"], "with-exit close": ["exit", "close"], "flush close": ["flush", "close"], "with-exit after an exception in the block": ["exit_exc"]}[ending]:
             if op == "close":
                 w.close()
             elif op == "flush":
                 w.flush()
+            elif op == "exit_exc":
+                try:
+                    with w:
+                        raise ValueError("the block failed")
+                except ValueError:
+                    pass
             else:
                 w.__exit__(None, None, None)
         try:
@@ -306,4 +312,28 @@ def c17_sweep(seed=0, n=60):
     return {"violates": False, "cases": cases}
 
 
-CALLS = {"c17_split_target": c17_split_target, "c17_template": c17_template, "c17_history": c17_history, "c17_split": c17_split, "c17_rotate": c17_rotate, "c17_sweep": c17_sweep}
+
+def c17_split_raw(n=3, count=1, selector=None):
+    import io
+
+    from flow.record import RecordWriter
+    from flow.record.stream import RecordStreamReader
+
+    D = _desc()
+    with tempfile.TemporaryDirectory() as td:
+        w = RecordWriter("split://" + os.path.join(td, "out.records") + f"?count={count}")
+        for i in range(n):
+            w.write(D(n=i, s=f"r{i}", _generated=GEN))
+        w.close()
+        parts = sorted(glob.glob(os.path.join(td, "*")), key=lambda p_: (int(([c for c in os.path.basename(p_).split(".") if c.isdigit()] or ["0"])[-1]), p_))
+        whole = b"".join(open(p_, "rb").read() for p_ in parts)
+    out, end = [], "stop"
+    try:
+        for r in RecordStreamReader(io.BytesIO(whole), selector=selector):
+            out.append(getattr(r, "s", repr(r)[:30]))
+    except Exception as e:
+        end = f"raise {type(e).__name__}: {e}"
+    bad = out != [f"r{i}" for i in range(n)] or end != "stop"
+    return {"violates": bad, "detail": f"{len(parts)} parts concatenated as raw bytes read back as {out}, ended {end}; written r0..r{n - 1}"}
+
+CALLS = {"c17_split_raw": c17_split_raw, "c17_split_target": c17_split_target, "c17_template": c17_template, "c17_history": c17_history, "c17_split": c17_split, "c17_rotate": c17_rotate, "c17_sweep": c17_sweep}
